@@ -683,6 +683,18 @@ class Interp:
                         c = int(x.e.const)
                     elif isinstance(x, SeqV) and x.kind == "str" and x.const is not None:
                         c = x.const
+                    if c is None and isinstance(x, BoolV):
+                        # a flag formatted into the string: one string per truth value of the flag
+                        res = []
+                        for pol, s2 in self.branch(x, o.st, v):
+                            try:
+                                r = go(i + 1, s2, acc + [format(pol, spec)])
+                            except ValueError:
+                                return None
+                            if r is None:
+                                return None
+                            res.extend(r)
+                        return res
                     if c is None:
                         return None
                     try:
@@ -779,7 +791,15 @@ class Interp:
         vals = [o for o in outs if o.kind == "val"]
         if len(vals) != 1:
             return OpaqueV(f"module-level {norm(expr)[:40]}")
-        return vals[0].value
+
+        def freeze(v, s_):
+            # the pristine state is dropped: a list made there is handed on as a constant (immutable) sequence
+            if isinstance(v, ListV):
+                return TupleV([freeze(x, s_) for x in s_.items(v)], is_list=True)
+            if isinstance(v, TupleV):
+                return TupleV([freeze(x, s_) for x in v.items], is_list=v.is_list)
+            return v
+        return freeze(vals[0].value, vals[0].st)
 
     def from_python(self, c) -> V:
         if c is None:
@@ -942,6 +962,15 @@ class Interp:
     def e_BinOp(self, e, st):
         return self.bind(self.eval_list([e.left, e.right], st), lambda vs, s: self.binop(vs[0], e.op, vs[1], s, e))
 
+    @staticmethod
+    def is_int_enum(cls) -> bool:
+        return any(isinstance(b, str) and b.split(".")[-1] == "IntEnum" for c in cls.mro() for b in c.bases)
+
+    @staticmethod
+    def enum_members(cls) -> list:
+        """[(name, value expression)] of an Enum class, in definition order."""
+        return [(k, v) for k, v in cls.class_assigns.items() if not k.startswith("_") and k not in cls.methods]
+
     def as_int(self, v: V):
         if isinstance(v, IntV):
             return v.e
@@ -1042,6 +1071,12 @@ class Interp:
         if isinstance(a, (FloatV, OpaqueV)) or isinstance(b, (FloatV, OpaqueV)):
             return self.val(st, FloatV("arith") if isinstance(a, FloatV) or isinstance(b, FloatV)
                             else OpaqueV("arith"))
+        if isinstance(op, ast.Mult) and isinstance(b, (ListV, TupleV)) and isinstance(a, IntV):
+            a, b = b, a
+        if isinstance(op, ast.Mult) and isinstance(a, (ListV, TupleV)) and isinstance(b, IntV) and b.e.is_const() \
+                and 0 <= int(b.e.const) <= 64:
+            items = list(st.items(a)) * int(b.e.const)
+            return self.val(st, st.new_list(items) if isinstance(a, ListV) else TupleV(items))
         if isinstance(a, (ListV, TupleV)) and isinstance(b, (ListV, TupleV)) and isinstance(op, ast.Add):
             items = st.items(a) + st.items(b)
             return self.val(st, st.new_list(items) if isinstance(a, ListV) else TupleV(items))
@@ -1109,7 +1144,7 @@ class Interp:
             if m is not None:
                 if m.kind == "property":
                     return self.call_function(m, [v], {}, st, node)
-                if m.kind == "staticmethod":
+                if m.kind == "staticmethod" or m.cls is None:
                     return self.val(st, FuncV(m))
                 if m.kind == "classmethod":
                     return self.val(st, FuncV(m, ClassV(v.cls)))
@@ -1125,6 +1160,12 @@ class Interp:
             if self.repr_code_cls is not None and cls.is_subclass_of(self.repr_code_cls) \
                     and attr in self.repr_code_values:
                 return self.val(st, EnumV(cls, attr))
+            if self.is_int_enum(cls) and attr in dict(self.enum_members(cls)):
+                # a member of an IntEnum is used as the integer it is
+                try:
+                    return self.val(st, IntV(int(const_eval(dict(self.enum_members(cls))[attr]))))
+                except (NotConst, TypeError, ValueError):
+                    self.unsupported(node, f"IntEnum member {cls.name}.{attr} with a value that is not a constant")
             if any(isinstance(b, str) and b.split(".")[-1] in ("Enum", "IntEnum") for c in cls.mro() for b in c.bases) \
                     and attr in cls.class_assigns and cls.lookup(attr) is None:
                 return self.val(st, EnumV(cls, attr))
@@ -1171,6 +1212,11 @@ class Interp:
                 return self.val(st, self.entity_value(ent, node))
             return self.val(st, ExtV(v.ext + "." + attr))
         if isinstance(v, ExtV):
+            if v.name == "os" and attr.startswith("O_"):
+                import os as _os
+                if hasattr(_os, attr):
+                    return self.val(st, IntV(int(getattr(_os, attr))))
+                return self.raise_(st, "AttributeError", node)
             if v.name.startswith("struct.Struct:") and attr == "size":
                 return self.val(st, IntV(struct.calcsize(v.name.split(":", 1)[1])))
             return self.val(st, ExtV(v.name + "." + attr))
@@ -1373,6 +1419,11 @@ class Interp:
             return None
         if isinstance(it, DictV):
             return [self.from_python(k) if not isinstance(k, tuple) else OpaqueV("key") for k in st.items(it)]
+        if isinstance(it, ClassV) and self.is_int_enum(it.cls):
+            try:
+                return [IntV(int(const_eval(v))) for _, v in self.enum_members(it.cls)]
+            except (NotConst, TypeError, ValueError):
+                return None
         return None
 
     # ------------------------------------------------------------------ calls
@@ -1528,6 +1579,29 @@ class Interp:
         if name in ("operator.mul", "operator.add", "operator.sub", "_operator.mul") and len(args) == 2:
             op = {"mul": ast.Mult(), "add": ast.Add(), "sub": ast.Sub()}[short]
             return self.binop(args[0], op, args[1], st, node)
+        if name == "builtins.getattr" and len(args) == 3 and isinstance(args[0], ExtV) and args[0].name == "os" \
+                and isinstance(args[1], SeqV) and isinstance(args[1].const, str) and args[1].const.startswith("O_"):
+            import os as _os
+            return self.val(st, IntV(int(getattr(_os, args[1].const))) if hasattr(_os, args[1].const) else args[2])
+        if name in ("builtins.open", "io.open") and args:
+            mode = kwargs.get("mode", args[1] if len(args) > 1 else self.from_python("r"))
+            st.events.append(("open", self.where(node), _tag(args[0]), mode))
+            return self.val(st, _FileV(mode))
+        if name == "os.open" and len(args) >= 2:
+            fl = self.as_int(args[1])
+            if fl is None or not fl.is_const():
+                self.unsupported(node, "os.open with flags that are not constant")
+            return self.val(st, _FdV(_tag(args[0]), int(fl.const)))
+        if name == "os.fdopen" and args and isinstance(args[0], _FdV):
+            import os as _os
+            fd = args[0]
+            # what the descriptor does to a pre-existing file, in the vocabulary of open(): truncating ('wb'),
+            # appending ('ab') or writing in place ('r+b')
+            eff = "wb" if fd.flags & _os.O_TRUNC else ("ab" if fd.flags & _os.O_APPEND else "r+b")
+            if not fd.flags & (_os.O_WRONLY | _os.O_RDWR):
+                eff = "rb"
+            st.events.append(("open", self.where(node), fd.path, self.from_python(eff)))
+            return self.val(st, _FileV(self.from_python(eff)))
         if name.startswith("builtins."):
             if short == "bytes" and len(args) == 1 and isinstance(args[0], SeqV) and args[0].kind == "bytes":
                 return self.val(st, args[0])     # bytes(b) of a bytes object is an equal bytes object
@@ -1545,6 +1619,8 @@ class Interp:
                     m = v.cls.lookup("__len__")
                     if m is not None:
                         return self.call_function(m, [v], {}, st, node)
+                if isinstance(v, ClassV) and self.is_int_enum(v.cls):
+                    return self.val(st, IntV(len(self.enum_members(v.cls))))
                 if isinstance(v, OpaqueV):
                     n = st.new_sym("len", f"len({v.tag})")
                     st.add(ge(n, 0))
@@ -1697,9 +1773,26 @@ class Interp:
     def builtin_misc(self, short, args, kwargs, st, node):
         if short == "float":
             return self.val(st, FloatV("float()"))
+        if short in ("list", "tuple") and len(args) == 1 and isinstance(args[0], GenV):
+            res = []
+            for o in self.consume(args[0], st, node):
+                if o.kind == "val":
+                    res.extend(self.val(o.st, o.value if short == "list" else TupleV(o.st.items(o.value))))
+                else:
+                    res.append(o)
+            return res
         if short in ("list", "tuple") and len(args) == 1 and isinstance(args[0], (ListV, TupleV)):
             its = st.items(args[0])
             return self.val(st, st.new_list(its) if short == "list" else TupleV(its))
+        if short == "enumerate" and len(args) >= 1 and isinstance(args[0], GenV):
+            # the values of the generator paired with a running number (of no interest: an unknown int >= start)
+            start = self.as_int(kwargs["start"] if "start" in kwargs else (args[1] if len(args) > 1 else IntV(0)))
+            if start is None:
+                self.unsupported(node, "enumerate start")
+            g = args[0]
+            eg = GenV(g.func, g.args, g.kwargs, g.closure)
+            eg.enumerate_from = start
+            return self.val(st, eg)
         if short == "enumerate" and len(args) >= 1 and isinstance(args[0], (ListV, TupleV)):
             start = int(self.as_int(args[1]).const) if len(args) > 1 else 0
             return self.val(st, TupleV([TupleV([IntV(i + start), x]) for i, x in enumerate(st.items(args[0]))], True))
@@ -1888,9 +1981,10 @@ class Interp:
                 return self.val(st, self.from_python(getattr(recv.const, attr)(*[a.const for a in args])))
             if attr in ("upper", "lower"):
                 return self.val(st, recv)
-            if attr in ("rjust", "ljust") and recv.kind == "str" and args and self.as_int(args[0]) is not None:
+            if attr in ("rjust", "ljust") and args and self.as_int(args[0]) is not None:
                 n = self.as_int(args[0])
-                fill = args[1].const if len(args) > 1 and isinstance(args[1], SeqV) and args[1].const else " "
+                fill = args[1].const if len(args) > 1 and isinstance(args[1], SeqV) and args[1].const else \
+                    (" " if recv.kind == "str" else b" ")
                 res = []
                 s1 = st.clone()
                 if s1.add(ge(recv.length, n)):
@@ -1900,7 +1994,15 @@ class Interp:
                     padlen = n - recv.length
                     pad = ("repeat", padlen, (padlen, [("const", LinExpr.c(1), fill)]))
                     pieces = ([pad] + list(recv.pieces)) if attr == "rjust" else (list(recv.pieces) + [pad])
-                    res.extend(self.val(s2, SeqV("str", n, pieces)))
+                    res.extend(self.val(s2, SeqV(recv.kind, n, pieces)))
+                return res
+            if attr == "join" and len(args) == 1 and isinstance(args[0], GenV):
+                res = []
+                for o in self.consume(args[0], st, node):
+                    if o.kind == "val":
+                        res.extend(self.call_method_builtin(recv, attr, [o.value], kwargs, o.st, node))
+                    else:
+                        res.append(o)
                 return res
             if attr == "join" and len(args) == 1 and isinstance(args[0], (TupleV, ListV)):
                 items = args[0].items if isinstance(args[0], TupleV) else st.items(args[0])
@@ -2019,6 +2121,20 @@ class Interp:
             return self.emit(NONE, st, y)
         return self.bind(self.eval(y.value, st), lambda v, s2: self.emit(v, s2, y))
 
+    def consume(self, gen: "GenV", st: State, node) -> list[Out]:
+        """Run a generator to exhaustion, collecting what it yields: one Out('val', state, list) per path."""
+        acc = st.new_list([])
+
+        def handler(v, s2, n2):
+            s2.items(acc).append(v)
+            return [Out("next", s2)]
+        self.yield_handlers.append(handler)
+        try:
+            outs = self.call_function(gen.func, gen.args, gen.kwargs, st, node, closure=gen.closure, drive=True)
+        finally:
+            self.yield_handlers.pop()
+        return [Out("val", o.st, acc) if o.kind == "val" else o for o in outs]
+
     def emit(self, v: V, st: State, node) -> list[Out]:
         """One value leaves the generator: hand it to the consumer (a `for` loop being interpreted) or log it."""
         h = self.yield_handlers[-1] if self.yield_handlers else None
@@ -2041,6 +2157,10 @@ class Interp:
             self.yield_handlers.append(outer)
             try:
                 outs = []
+                if getattr(gen, "enumerate_from", None) is not None:
+                    k = s2.new_sym("enum", "running number of enumerate()")
+                    s2.add(ge(k, gen.enumerate_from))
+                    v = TupleV([IntV(k), v])
                 for a in self.assign_target(s.target, v, s2, s):
                     if a.kind == "next":
                         outs.extend(self.exec_block(s.body, a.st))
@@ -2220,6 +2340,21 @@ class Interp:
                 name = "cls:" + t[1].name
         return [Out("raise", st, exc=name, where=(self.where(s), norm(s)[:100], self.cur_func[-1].short))]
 
+    def s_Assert(self, s, st):
+        # (python -O removes asserts; as written: a false test raises AssertionError, a true one falls through)
+        res = []
+        for o in self.eval(s.test, st):
+            if o.kind != "val":
+                res.append(o)
+                continue
+            for b, s3 in self.branch(o.value, o.st, s.test):
+                if b:
+                    res.append(Out("next", s3))
+                else:
+                    res.append(Out("raise", s3, exc="AssertionError",
+                                   where=(self.where(s), norm(s)[:100], self.cur_func[-1].short)))
+        return res
+
     def s_If(self, s, st):
         def go(c, s2):
             res = []
@@ -2346,24 +2481,21 @@ class Interp:
         return any(n in chain for n in names)
 
     def s_With(self, s, st):
-        for item in s.items:
-            ce = item.context_expr
-            if isinstance(ce, ast.Call) and isinstance(ce.func, ast.Name) and ce.func.id == "open":
-                def go(args, s2, item=item):
-                    mode = args[1] if len(args) > 1 else self.from_python("r")
-                    s2.events.append(("open", self.where(s), _tag(args[0]), mode))
-                    fobj = OpaqueV("file")
-                    if item.optional_vars is not None:
-                        s2.env[item.optional_vars.id] = _FileV(mode)
-                    return [Out("next", s2)]
-                outs = self.bind(self.eval_list(ce.args, st), go)
-                res = []
-                for o in outs:
-                    if o.kind == "next":
-                        res.extend(self.exec_block(s.body, o.st))
-                    else:
-                        res.append(o)
-                return res
+        if len(s.items) == 1:
+            item = s.items[0]
+            res = []
+            for o in self.eval(item.context_expr, st):
+                if o.kind != "val":
+                    res.append(o)
+                    continue
+                if not isinstance(o.value, _FileV):
+                    self.unsupported(s, "with statement over something that is not a file")
+                if item.optional_vars is not None:
+                    if not isinstance(item.optional_vars, ast.Name):
+                        self.unsupported(s, "with target")
+                    o.st.env[item.optional_vars.id] = o.value
+                res.extend(self.exec_block(s.body, o.st))
+            return res
         self.unsupported(s, "with statement")
 
     def s_FunctionDef(self, s, st):
@@ -2404,6 +2536,12 @@ class _BoundBuiltin(V):
 class _FileV(V):
     def __init__(self, mode):
         self.mode = mode
+
+
+class _FdV(V):
+    """A file descriptor from os.open(path, flags)."""
+    def __init__(self, path, flags):
+        self.path, self.flags = path, flags
 
 
 def _tag(v) -> str:
